@@ -1,6 +1,7 @@
 #!/bin/sh
 # Apply each seeded change to /repo, run the quick check of the property it breaks, undo.
 # usage: run_seeds.sh [seed-id ...]     (default: all under /verif/seeded)
+if [ -n "$(git -C /repo status --porcelain --untracked-files=no)" ]; then echo "refusing to run: /repo has uncommitted changes (they would be lost)"; exit 2; fi
 cd /verif/seeded || exit 2
 seeds="$@"; [ -z "$seeds" ] && seeds=$(ls)
 for s in $seeds; do
